@@ -514,6 +514,26 @@ class Parameter(object):
         return (initial, valmin, valmax)
 
 
+def _get_readonly_view(arr):
+    """Creates a read-only view of the given numpy ndarray, so that internal
+    arrays can be handed out without the risk that the caller changes them.
+
+    Parameters
+    ----------
+    arr : instance of numpy ndarray
+        The array.
+
+    Returns
+    -------
+    view : instance of numpy ndarray
+        The read-only view of the array. No data is copied.
+    """
+    view = arr.view()
+    view.flags.writeable = False
+
+    return view
+
+
 class ParameterSet(
         object):
     """This class holds a set of Parameter instances.
@@ -596,8 +616,9 @@ class ParameterSet(
     @property
     def params(self):
         """(read-only) The 1D ndarray holding the Parameter instances.
+        It is a read-only view of the internal array.
         """
-        return self._params
+        return _get_readonly_view(self._params)
 
     @property
     def params_name_list(self):
@@ -615,15 +636,16 @@ class ParameterSet(
     @property
     def fixed_params_name_list(self):
         """(read-only) The list of the fixed parameter names.
+        It is a copy of the internal list.
         """
-        return self._fixed_param_name_list
+        return list(self._fixed_param_name_list)
 
     @property
     def fixed_params_mask(self):
         """(read-only) The 1D ndarray holding the mask for the fixed parameters
-        of this parameter set.
+        of this parameter set. It is a read-only view of the internal array.
         """
-        return self._params_fixed_mask
+        return _get_readonly_view(self._params_fixed_mask)
 
     @property
     def fixed_params_idxs(self):
@@ -642,8 +664,9 @@ class ParameterSet(
     @property
     def floating_params_name_list(self):
         """(read-only) The list of the floating parameter names.
+        It is a copy of the internal list.
         """
-        return self._floating_param_name_list
+        return list(self._floating_param_name_list)
 
     @property
     def floating_params_mask(self):
@@ -682,9 +705,9 @@ class ParameterSet(
     @property
     def fixed_param_values(self):
         """(read-only) The (n_fixed_params,)-shaped ndarray holding values of
-        the fixed parameters.
+        the fixed parameters. It is a read-only view of the internal array.
         """
-        return self._fixed_param_values
+        return _get_readonly_view(self._fixed_param_values)
 
     @property
     def floating_param_initials(self):
